@@ -130,6 +130,21 @@ impl<'a> Dec<'a> {
         v as i32
     }
 
+    /// A choice in `0..n` *derived* from everything decoded so far (the fingerprint) and a salt, without
+    /// consuming a tape word: the case stays a pure function of the tape, saved tapes keep their meaning
+    /// for every other decoded value, and generators can be given further equivalent-route choices late.
+    /// Only to be used for choices between routes that are documented to be equivalent (the decoded
+    /// case is the same object either way), because the value jumps when an earlier word shrinks.
+    pub fn derived(&self, salt: u64, n: u32) -> u32 {
+        let mut h = self.hash ^ salt.wrapping_mul(0x9e3779b97f4a7c15);
+        h ^= h >> 31;
+        h = h.wrapping_mul(0xbf58476d1ce4e5b9);
+        h ^= h >> 29;
+        h = h.wrapping_mul(0x94d049bb133111eb);
+        h ^= h >> 32;
+        ((h & 0xffff_ffff) * n as u64 >> 32) as u32
+    }
+
     pub fn bool(&mut self) -> bool {
         self.u(0, 1) == 1
     }
